@@ -150,14 +150,15 @@ def run(ctx):
                     "base_graph": sb["text"]["readable"], "variant_graph": sr["text"]["readable"],
                     "clause": "canonical model graph of permuted/duplicated samples == that of the base list",
                 }, f"plan {splan}: " + describe(sb, sr))
+        glob_stats = glob_channel(ctx, pool, rep, distinct)
     return rep.finish({
-        "evaluations": len(jobs),
+        "evaluations": len(jobs) + glob_stats["runs"],
         "distinct_nontrivial": len(distinct),
         "rule": "base sample lists (2-6 samples per model) from the seeded workload generator; variant = seeded "
                 "permutation and/or repetition of present samples per model name; non-trivial = the permutation moves "
                 "two different samples or a sample is repeated; distinct by digest(workload, options, plan)",
         "samples": samples,
-        "bases": len(bases), "variants_per_base": k_var, **stats,
+        "bases": len(bases), "variants_per_base": k_var, **stats, "glob_channel": glob_stats,
         "fault_kinds": {"reorder_delivery": sum(1 for m in meta if m[1] and any(p["perm"] != sorted(p["perm"]) for p in m[1])),
                         "duplicate_delivery": sum(1 for m in meta if m[1] and any(p["dups"] for p in m[1]))},
         "simulated_time": "none",
@@ -168,6 +169,82 @@ def run(ctx):
         "with equal refinement colours would be missed (detection loss only)",
         "pairs where either side raises are skipped, not judged",
     ])
+
+
+def glob_specs(w, orders, dup):
+    """CLI specs delivering the samples of each model as one file per sample through one glob pattern per model; the
+    simulated directory returns the matches in the scheduled order; `dup` lists one file a second time (-m again)."""
+    from ..scenario import cli_options, options_argv
+    o = cli_options(None, w["options"])
+    files, argv = {}, []
+    import json as _json
+    import re as _re
+    for mi, (name, samples) in enumerate(w["models"]):
+        name = _re.sub(r"\W", "", name) or "M"
+        for si, smp in enumerate(samples):
+            files[f"m{mi}/s{si}.json"] = {"text": _json.dumps(smp, ensure_ascii=False)}
+        argv += ["-m", name, "{DIR}/" + f"m{mi}/*.json"]
+    if dup is not None:
+        mi, si = dup
+        name = _re.sub(r"\W", "", w["models"][mi][0]) or "M"
+        argv += ["-m", name, "{DIR}/" + f"m{mi}/s{si}.json"]
+    argv += options_argv(o)
+    return {"files": files, "argv": argv, "glob_order": orders, "canon": True}
+
+
+def glob_channel(ctx, pool, rep, distinct):
+    """Delivery through the CLI: reordered directory enumeration and a file matched twice (DESIGN.md 4.2)."""
+    n = int((150 if ctx.tier == "quick" else 3000) * ctx.scale)
+    stats = {"runs": 0, "compared": 0, "skipped_failing": 0, "reordered": 0, "duplicated": 0}
+    specs, meta = [], []
+    for i in range(n):
+        rng = seeds.derive(ctx.seed, PROP, "glob", i)
+        w = gen_workload(seeds.derive(ctx.seed, PROP, "globw", i), samples=rng.randint(2, 5))
+        if not any(len(s) >= 2 for _, s in w["models"]):
+            continue
+        ident = [list(range(len(s))) for _, s in w["models"]]
+        specs.append(glob_specs(w, ident, None))
+        meta.append((i, "base", None))
+        for k in range(3):
+            orders = []
+            for idx in ident:
+                p = list(idx)
+                rng.shuffle(p)
+                orders.append(p)
+            specs.append(glob_specs(w, orders, None))
+            meta.append((i, "reorder", orders))
+        mi = rng.randrange(len(w["models"]))
+        dup = (mi, rng.randrange(len(w["models"][mi][1])))
+        specs.append(glob_specs(w, ident, dup))
+        meta.append((i, "dup", dup))
+    recs = [unwrap(r) for r in pool.map("simenv:job_cli", specs, timeout=120)]
+    stats["runs"] = len(recs)
+    base = {}
+    for (i, kind, plan), rec, spec in zip(meta, recs, specs):
+        if kind == "base":
+            base[i] = (rec, spec)
+    for (i, kind, plan), rec, spec in zip(meta, recs, specs):
+        if kind == "base":
+            continue
+        b, bspec = base[i]
+        if b["status"] != 0 or rec["status"] != 0 or "canon" not in b or "canon" not in rec:
+            stats["skipped_failing"] += 1
+            continue
+        stats["compared"] += 1
+        if kind == "reorder" and any(p != sorted(p) for p in plan):
+            stats["reordered"] += 1
+            distinct.add(seeds.digest(["glob", i, plan]))
+        if kind == "dup":
+            stats["duplicated"] += 1
+            distinct.add(seeds.digest(["glob", i, plan]))
+        if b["canon"]["canon"] != rec["canon"]["canon"]:
+            a_, b_ = {"text": b["canon"]}, {"text": rec["canon"]}
+            rep.violation("glob:" + key_of(a_, b_), {
+                "channel": "glob", "base_spec": bspec, "variant_spec": spec, "plan": plan,
+                "base_graph": b["canon"]["readable"], "variant_graph": rec["canon"]["readable"],
+                "clause": "canonical model graph under reordered / duplicated file deliveries == base",
+            }, f"glob channel ({kind} {plan}): " + describe(a_, b_))
+    return stats
 
 
 def evaluate_pair(pool, w, plan):
@@ -229,6 +306,12 @@ def minimise(pool, w, plan, key):
 
 
 def replay(ctx, payload):
+    if payload.get("channel") == "glob":
+        with Pool(2, instrument=True) as pool:
+            a, b = [unwrap(r) for r in pool.map("simenv:job_cli", [payload["base_spec"], payload["variant_spec"]])]
+            if "canon" in a and "canon" in b and a["canon"]["canon"] != b["canon"]["canon"]:
+                return True, describe({"text": a["canon"]}, {"text": b["canon"]})
+        return False, "graphs equal"
     with Pool(2, instrument=True) as pool:
         a, b = evaluate_pair(pool, payload["workload"], payload["plan"])
         if differs(a, b):
